@@ -121,12 +121,25 @@ def gen_decls(rng, pool):
         elif k == 'gear':
             src = list(range(n)) if wild or len(gearish) < 2 else gearish
             eta = rng.choice([rng.uniform(0.3, 1), 1, 0, 1.2, -0.1]) if rng.random() < 0.3 else rng.uniform(0.3, 1)
-            ds.append(['gear', rng.choice(src), rng.choice(src), eta])
+            ds.append(['gear', rng.choice(src), rng.choice(src), eta] + rng.choice([[], [], [], ['np'], ['int']]))
         else:
             src = list(range(n)) if wild or len(wormish) < 2 else wormish
             f = rng.choice([rng.uniform(0, 0.6), 1.0, 1.3, -0.2, 0, rng.uniform(0.6, 1), rng.uniform(0.8, 1)]) if rng.random() < 0.4 else rng.uniform(0, 0.6)
-            ds.append(['worm', rng.choice(src), rng.choice(src), f])
+            ds.append(['worm', rng.choice(src), rng.choice(src), f] + rng.choice([[], [], [], ['np'], ['int']]))
     return ds
+
+
+def num_arg(d):
+    """the efficiency / friction coefficient as the user passes it: a Python float, an int where the value is
+    integral, or a numpy scalar (numpy.float64 is a float; results of numpy computations are numpy scalars)"""
+    v = d[3]
+    how = d[4] if len(d) > 4 else None
+    if how == 'np':
+        import numpy as np
+        return np.float64(v)
+    if how == 'int' and float(v).is_integer():
+        return int(v)
+    return v
 
 
 def expected(pool, objs, d):
@@ -240,9 +253,9 @@ def eval_case(ctx, case, props):
             if d[0] == 'joint':
                 add_fixed_joint(objs[d[1]], objs[d[2]])
             elif d[0] == 'gear':
-                add_gear_mating(objs[d[1]], objs[d[2]], d[3])
+                add_gear_mating(objs[d[1]], objs[d[2]], num_arg(d))
             else:
-                add_worm_gear_mating(objs[d[1]], objs[d[2]], d[3])
+                add_worm_gear_mating(objs[d[1]], objs[d[2]], num_arg(d))
             got = ('ok',)
         except Exception as ex:  # noqa: BLE001
             got = ('err', type(ex).__name__)
@@ -426,7 +439,7 @@ def gen_chain_case(rng, tbl):
                 a['helix'], b['helix'] = hx, list(hx)
             ia, ib = add(a), add(b)
             decls.append(['joint', prev, ia])
-            decls.append(['gear', ia, ib, rng.uniform(0.3, 1)])
+            decls.append(['gear', ia, ib, rng.uniform(0.3, 1)] + rng.choice([[], [], [], [], ['np']]))
             prev = ib
         else:
             row = rng.choice(tbl)
@@ -443,7 +456,7 @@ def gen_chain_case(rng, tbl):
             else:
                 ia, ib = add(wheel), add(worm)
             decls.append(['joint', prev, ia])
-            decls.append(['worm', ia, ib, f])
+            decls.append(['worm', ia, ib, f] + rng.choice([[], [], [], [], ['np']]))
             prev = ib
         if rng.random() < 0.3:
             # a failing or pointless call in between
